@@ -399,8 +399,8 @@ def apply(run, st, op, case):
                 run.count("update_without_transform_on_existing_edge")
             geo = kw["geometry"] if "geometry" in kw else _NO
             m.update(to, frm_eff, M, geometry=geo)
-            st.ghost.discard(to)
-            st.ghost.discard(frm_eff)
+            # (st.ghost keeps names that entered through a failed get() even when they become real
+            # frames later: a listing cached while the ghost was there can come back, see remove_node)
             if not any(e[1] == to for e in m.former):
                 # the record of the edge into `to` was rewritten; a replaced (former) edge
                 # into it would still carry the dropped reference
